@@ -42,6 +42,8 @@
 
    Modes:  "exh"   every v in 0 .. 2^W - 1  (W <= 12): calls b2g(v), g2b(v)
            "pairs" every pair (u, v) (W <= 6): additivity, err(u, v)
+           (every mode also pairs a BINARY-VALUED operand - 0 / 1 only - with an M-ary / wide one: HammingLaw is
+           about each value pair, whatever the other entries of the arrays look like)
            "basis" W-bit (W = 62) one-hot, 2^k - 1, 2^k + 1, all-ones and NRand seeded vectors; err on
                    seeded pairs, incl. pairs of DIFFERENT widths (v mod 2^w against v, w a storage
                    width 7/8/15/16/31) - the count is about values, not about how they are stored
@@ -102,10 +104,16 @@ PairDomain ==
   CASE Mode = "pairs" -> Domain \X Domain
     [] Mode = "exh"   -> {<<OfInt(n), OfInt((n * 37 + 11) % (2 ^ W))>> : n \in 0..(2 ^ W - 1)}
                          \cup {<<OfInt(n), Zero>> : n \in 0..(2 ^ W - 1)}
+                         \* one operand BINARY-VALUED (0 / 1: bits, an all-zero block), the other M-ary
+                         \cup {<<OfInt(n % 2), OfInt(n)>> : n \in 0..(2 ^ W - 1)}
+                         \cup {<<OfInt((n \div 2) % 2), OfInt(n)>> : n \in 0..(2 ^ W - 1)}
     [] Mode = "basis" -> {<<RandVec(n), RandVec(n + 1)>> : n \in 1..NRand}
                          \cup {<<OneHot(j), RandVec(1 + (j % NRand))>> : j \in Idx}
                          \cup {<<AllOnes, LowOnes(j)>> : j \in Idx}
                          \cup {<<LowOnes(j), Zero>> : j \in Idx} \cup {<<RandVec(n), Zero>> : n \in 1..NRand}
+                         \* one operand binary-valued (0 / 1), the other wide
+                         \cup {<<OneHot(1), RandVec(n)>> : n \in 1..NRand} \cup {<<Zero, OneHot(j)>> : j \in Idx}
+                         \cup {<<OneHot(1), LowOnes(j)>> : j \in Idx} \cup {<<OneHot(1), OneHot(j)>> : j \in Idx}
                          \* operands of different widths: the low w bits of a vector against the whole vector
                          \cup {<<Trunc(RandVec(n), w), RandVec(n)>> : n \in 1..NRand, w \in Widths}
                          \cup {<<Trunc(RandVec(n), w), Trunc(RandVec(n + 1), 2 * w)>> : n \in 1..NRand, w \in Widths}
